@@ -184,6 +184,16 @@ def ev(s):
 # (a) sequential differential monitor
 
 
+POLICIES = ['least-recently-stored', 'least-recently-used', 'least-frequently-used', 'none']
+SMALL_PARENT_LIMIT = 2 * (32768 + 8192)     # two shards: one shard's share is a little above the volume of an empty cache
+
+
+def evicting_options(kind):
+    """kinds 'fanout+<policy>' / 'django+<policy>': settings the parent FanoutCache / DjangoCache (OPTIONS) is constructed with"""
+    policy = kind.partition('+')[2]
+    return {'eviction_policy': policy, 'size_limit': SMALL_PARENT_LIMIT} if policy else {}
+
+
 class Handle:
     """The implementation side of a history: an Index of the given kind and how to reopen it."""
 
@@ -222,17 +232,19 @@ class Handle:
             self.half_open = cache
             idx = diskcache.Index.fromcache(cache) if init is None else diskcache.Index.fromcache(cache, src())
             self.half_open = None
-        elif kind == 'fanout':
-            self.parent = diskcache.FanoutCache(d, shards=2)
+        elif kind.partition('+')[0] == 'fanout':
+            # 'fanout+<policy>': the parent is CONSTRUCTED with that eviction policy and a small size limit (EVICTING_OPTIONS)
+            self.parent = diskcache.FanoutCache(d, shards=2, **evicting_options(kind))
             idx = self.parent.index('i/x')
             if init is not None:
                 idx.update(src())
-        elif kind == 'django':
+        elif kind.partition('+')[0] == 'django':
             from django.conf import settings
             if not settings.configured:
                 settings.configure()
             from diskcache.djangocache import DjangoCache
-            self.parent = DjangoCache(d, {'SHARDS': 2})
+            opts = evicting_options(kind)
+            self.parent = DjangoCache(d, dict({'SHARDS': 2}, **({'OPTIONS': opts} if opts else {})))
             idx = self.parent.index('i')
             if init is not None:
                 idx.update(src())
@@ -911,6 +923,67 @@ def extra_histories(ctx, res, stats, nfailing, ncontended):
             sdiv['what'], 'construction' if not sops else '%s(%s)' % (sops[-1][0], ', '.join(rl(sops[-1][1]))[:300]),
             sdiv['expected'][:200], sdiv['observed'][:200])
         res.violations.append(fw.Violation(sig, desc, history_case('%s-%d' % (what, hid), kind, what, sinit, sops, sdiv, extra)))
+
+
+def gen_evicting_parent_history(rng):
+    """ops for an Index obtained from a parent cache that evicts: filled far beyond one shard's share of the parent's size limit with
+    inline values of 200-900 characters (update, [], setdefault), read, obtained again (reopen / unpickle), filled further, popped."""
+    ops, n, keys = [], 0, []
+
+    def pair():
+        nonlocal n
+        n += 1
+        k = rng.choice([('key', n), 'key-%03d' % n, n, 1000.5 + n])
+        keys.append(k)
+        return (k, ('value-%04d-' % n) + chr(97 + n % 26) * rng.choice([200, 400, 900]))
+    for rnd in range(rng.randint(3, 4)):
+        ops.append(('update', [[pair() for _ in range(rng.randint(25, 40))]]))
+        for _ in range(rng.randint(1, 3)):
+            k, v = pair()
+            ops.append(rng.choice([('setitem', [k, v]), ('setdefault', [k, v])]))
+        ops.append(rng.choice([('len', []), ('getitem', [keys[0]]), ('contains', [keys[1]]), ('peekitem', [False]), ('get', [keys[2], None]),
+                               ('setitem', [keys[3], 'replaced']), ('popitem', [False]), ('popitem', [True]), ('keys', [])]))
+        if rnd == 1:
+            ops.append((rng.choice(['reopen', 'reopen', 'pickle']), []))
+    ops.append(('reopen', []))
+    ops.append(('items', []))
+    return ops
+
+
+def evicting_parent_histories(ctx, res, stats, n):
+    """"Never loses items to eviction", whatever the cache the Index was obtained from is configured to do: FanoutCache.index /
+    DjangoCache.index of a parent constructed with every eviction policy and a small size limit (monitor only; own random stream)."""
+    import random
+    rng = random.Random('C12-evicting-parent-%d' % ctx.seed)
+
+    def mkdir():
+        return ctx.scratch('c12e')
+    kinds = ['%s+%s' % (b, p) for p in POLICIES for b in ('fanout', 'django')]
+    seen = set()
+    for hid in range(n):
+        kind = kinds[hid % len(kinds)]
+        ops = gen_evicting_parent_history(rng)
+        events, div, at = run_history(kind, [], ops, mkdir, stats=stats)
+        stats['histories_evicting_parent'] = stats.get('histories_evicting_parent', 0) + 1
+        stats['evicting_parent_items_stored'] = stats.get('evicting_parent_items_stored', 0) + (len(events[-1]['items']) if events else 0)
+        for i, e in enumerate(events):
+            res.count(['evicting-parent', kind, hid, i, e['op']], nontrivial=True)
+        if div is None or div['sig'] in seen:
+            continue
+        sig = div['sig']
+        seen.add(sig)
+        upto = ops[:at + 1] if at is not None and at >= 0 else []
+        sinit, sops = shrink(kind, [], upto, mkdir, sig, budget=30) if upto else ([], upto)
+        _, sdiv, sat = run_history(kind, sinit, sops, mkdir)
+        if sdiv is None or sdiv['sig'] != sig:
+            sinit, sops, sdiv = [], upto, div
+        nstored = sum(len(a[0]) if op == 'update' else 1 for op, a in sops if op in ('update', 'setitem', 'setdefault'))
+        desc = ('Index obtained from %s.index() of a parent constructed with eviction_policy=%r, size_limit=%d, shards=2 diverges from OrderedDict (%s) at %s '
+                'after %d pairs were stored: expected %s observed %s' % (
+                    'FanoutCache' if kind.startswith('fanout') else 'DjangoCache', kind.partition('+')[2], SMALL_PARENT_LIMIT, sdiv['what'],
+                    'construction' if not sops else '%s(%s)' % (sops[-1][0], ', '.join(rl(sops[-1][1]))[:120]), nstored,
+                    sdiv['expected'][:160], sdiv['observed'][:160]))
+        res.violations.append(fw.Violation(sig, desc, history_case('evicting-parent-%d' % hid, kind, 'evicting-parent', sinit, sops, sdiv)))
 
 
 def directed_values(ctx, res, stats, histories, thorough):
@@ -1947,7 +2020,8 @@ def finish_extra(res, stats):
         'schedule_steps': stats.get('schedule_steps', 0),
     })
     for k in ('histories_failing', 'histories_contended', 'failing_sources', 'contended_calls', 'contended_calls_that_waited',
-              'contended_failed_begin_attempts', 'directed_int_histories', 'shared_dir_runs', 'shared_dir_programs', 'setdefault_race_runs'):
+              'contended_failed_begin_attempts', 'directed_int_histories', 'shared_dir_runs', 'shared_dir_programs', 'setdefault_race_runs',
+              'histories_evicting_parent', 'evicting_parent_items_stored'):
         res.extra[k] = stats.get(k, 0)
 
 
@@ -1982,7 +2056,11 @@ RULE = ('sequential: generated histories of 10-40 mapping operations (two stream
         'must be those of some real-time-compatible order of the four calls on an OrderedDict (quick tier: a third of the 19 store x removal '
         'pairs by seed plus [] x replacement and [] x popitem(last)).  Setdefault race (S4, monitor only): setdefault of a MISSING key (inline and '
         'file-backed default) against another client\'s setdefault with another default / [] = / update / lookup of the same key, the other client '
-        'placed after i = 0..n events of the setdefault; same requirement (two setdefault calls return the same, stored value).')
+        'placed after i = 0..n events of the setdefault; same requirement (two setdefault calls return the same, stored value).  '
+        'Evicting parents (monitor only, own random stream): an Index from FanoutCache.index / DjangoCache.index (OPTIONS) of a parent CONSTRUCTED '
+        'with each eviction policy and size_limit %d over two shards, filled with 80-170 pairs of inline values of 200-900 characters (several '
+        'times one shard\'s share of that limit) by update, [] and setdefault, read, obtained again by reopen / unpickle, filled further, popped '
+        'from both ends: after every call items() is what OrderedDict holds.' % SMALL_PARENT_LIMIT)
 
 
 def run(ctx):
@@ -1994,6 +2072,7 @@ def run(ctx):
     directed_values(ctx, res, stats, histories, not ctx.quick)
     directed_ints(ctx, res, stats, histories, not ctx.quick)
     extra_histories(ctx, res, stats, 80 if ctx.quick else 800, 40 if ctx.quick else 400)
+    evicting_parent_histories(ctx, res, stats, 8 if ctx.quick else 64)
     correspondence(ctx, res, histories, 7000 if ctx.quick else 100000)
     concurrent(ctx, res, nsched, stats)
     shared_dir_race(ctx, res, stats, not ctx.quick)
@@ -2015,6 +2094,7 @@ def search(ctx, broken):
     directed_values(ctx, res, stats, [], True)
     directed_ints(ctx, res, stats, [], True)
     extra_histories(ctx, res, stats, 240, 120)
+    evicting_parent_histories(ctx, res, stats, 16)
     concurrent(ctx, res, nsched, stats)
     shared_dir_race(ctx, res, stats, True)
     setdefault_race(ctx, res, stats, True)
